@@ -26,7 +26,7 @@ def build_cmd_from_demo(path, old_root, new_root, demo_dir):
     cands = [l.strip() for l in joined if re.search(r"(?<!\w)(g\+\+|gcc|clang\+\+)(?![\w+])", l) and " -o" in l]
     if not cands: return None
     cmd = cands[0]
-    if "$" in cmd or cmd.rstrip().endswith("done") or ";" in cmd or " -c " in cmd: return None   # part of a multi-line shell recipe: use the generic build
+    if "$" in cmd or cmd.rstrip().endswith("done") or ";" in cmd or " -c " in cmd or "*.o" in cmd: return None   # part of a multi-line shell recipe: use the generic build
     cmd = cmd[re.search(r"(g\+\+|gcc|clang\+\+)", cmd).start():]
     cmd = cmd.replace(old_root + "/MUTATION", "@@MUT@@").replace(old_root, new_root).replace("@@MUT@@", os.path.dirname(demo_dir))
     return cmd
